@@ -11,6 +11,7 @@
    with respect to the same map specification) and, step for step in sequential runs, by the
    C01/C06/C17 correspondence of the same logical machine. *)
 From GoSST Require Import Base.Bytes Db.Logical Db.Conc Db.ConcFacts.
+From GoSST Require Fs.OrderFacts.
 From Coq Require Import String.
 From GoSSTGen Require Import FactsCode.
 
@@ -43,3 +44,9 @@ Print Assumptions C05_lock_discipline.
 Print Assumptions C05_histories_linearizable.
 Print Assumptions C05_linearization_points.
 Print Assumptions C05_final_state_is_map.
+
+(* the record of a mutation is appended to the log inside the write-locked section that applies it *)
+Theorem C05_log_append_under_write_lock :
+  put_log_append_under_write_lock = Some true /\ delete_log_append_under_write_lock = Some true.
+Proof. exact OrderFacts.log_under_lock_facts. Qed.
+Print Assumptions C05_log_append_under_write_lock.
